@@ -3,6 +3,7 @@ property named by its file-name prefix report a VIOLATION.  Runs on scratch copi
 import os, subprocess, sys, tempfile, shutil, json, re
 
 VERIF = os.path.dirname(os.path.dirname(os.path.abspath(__file__)))
+BASE = os.environ.get("VERIF_BASE_REPO", "/repo")  # the tree the changes are applied to (a snapshot for background runs)
 
 
 def run_one(patch, props=None, tier="quick"):
@@ -12,9 +13,9 @@ def run_one(patch, props=None, tier="quick"):
     tmp = tempfile.mkdtemp(prefix="verif_mut_")
     try:
         dst = os.path.join(tmp, "repo")
-        subprocess.run(["git", "clone", "-q", "--no-hardlinks", "/repo", dst], check=True)
+        subprocess.run(["git", "clone", "-q", "--no-hardlinks", BASE, dst], check=True)
         # carry over uncommitted working-tree state of /repo (contracts under development)
-        d = subprocess.run(["git", "-C", "/repo", "diff", "HEAD"], capture_output=True, text=True).stdout
+        d = subprocess.run(["git", "-C", BASE, "diff", "HEAD"], capture_output=True, text=True).stdout
         if d.strip():
             subprocess.run(["git", "-C", dst, "apply"], input=d, text=True, check=True)
         r = subprocess.run(["git", "-C", dst, "apply", patch], capture_output=True, text=True)
